@@ -21,29 +21,191 @@ SCAN_T = [
     H("k_pi_feed_n12", "PiParser::feed, 1..12 symbolic bytes", ["terminator split as ?|>"]),
     H("k_bang_parse_n12", "BangType::parse(&[], chunk), <=12 symbolic bytes", ["comment end found", "cdata end found"]),
 ]
+EMIT_Q = [
+    H("e_cdata_n12", "ReaderState::emit_bang(CData) on every scanner output <=12 bytes, all configs", ["CData"]),
+    H("e_comment_n10", "ReaderState::emit_bang(Comment) on every scanner output <=10 bytes, all configs", ["Comment", "DoubleHyphen"]),
+    H("e_doctype_n12", "ReaderState::emit_bang(DocType) on every scanner output <=12 bytes, all configs", ["DocType", "MissingDoctypeName"]),
+    H("e_pi_n8", "ReaderState::emit_question_mark on every scanner output <=8 bytes", ["Decl"]),
+    H("e_end_n4", "ReaderState::emit_end on every scanner output <=4 bytes, stack depth<=1, name<=2", [], cost=3),
+    H("e_start_n8", "ReaderState::emit_start on every scanner output <=8 bytes", []),
+]
 STEP1_Q = [
     H("s1_tag_n4", STEP + "InsideMarkup, rest = start/empty tag class, <=4 bytes, " + ALL256, ["Start", "Empty"], cost=3),
     H("s1_end_n4", STEP + "InsideMarkup, rest[0]='/', <=4 bytes, open-name stack depth<=1 name<=1 byte", ["End", "IllFormedError"], cost=4),
     H("s1_pi_n4", STEP + "InsideMarkup, rest[0]='?', <=4 bytes", ["PI"], cost=3),
     H("s1_decl_n3", STEP + "InsideMarkup, rest='?xml'+<=3 bytes", ["Decl", "PI"], cost=3),
     H("s1_bang_n4", STEP + "InsideMarkup, rest[0]='!', <=4 bytes", ["SyntaxError"], cost=3),
-    H("s1_comment_n4", STEP + "InsideMarkup, rest='!--'+<=4 bytes", ["Comment", "IllFormedError"], cost=3),
-    H("s1_cdata_n4", STEP + "InsideMarkup, rest='![CDATA['+<=4 bytes", ["CData"], cost=3),
-    H("s1_doctype_n4", STEP + "InsideMarkup, rest='!DOCTYPE'+<=4 bytes", ["DocType", "IllFormedError"], cost=3),
-    H("s1_doctypelc_n3", STEP + "InsideMarkup, rest='!doctype'+<=3 bytes", ["DocType"], cost=3),
+    H("s1_comment_n4", STEP + "InsideMarkup, rest='!--'+<=4 bytes", ["Comment", "IllFormedError"], cost=5),
     H("s1_text_n4", STEP + "InsideText, <=4 bytes", ["Text", "Eof"], cost=5),
     H("s1_init_n4", STEP + "Init, <=4 bytes (incl. BOM + 1)", ["Text"], cost=5),
-    H("s1_initbom_n3", STEP + "Init, rest=EF BB BF + <=3 bytes", ["Text", "Start"], cost=4),
+    H("s1_initbom_n3", STEP + "Init, rest=EF BB BF + <=3 bytes", ["Text", "Start"], cost=6),
     H("s1_empty_n2", STEP + "InsideEmpty, stack depth 1, name <=2 bytes", ["End"]),
     H("s1_done_n2", STEP + "Done", ["Eof"]),
+]
+STEP1_T = [
+    H("s1_doctypelc_n3", STEP + "InsideMarkup, rest='!doctype'+<=3 bytes", ["DocType"], cost=9, timeout_thorough=3600),
+    H("e_end_n6", "ReaderState::emit_end on every scanner output <=6 bytes", [], cost=5),
+]
+SHAPE = "open-name stack shape concrete (depth, name lengths), name bytes + tag bytes + 4 switches symbolic (ASCII); "
+C04_Q = [
+    H("e_end_n4", "ReaderState::emit_end on every scanner output <=4 bytes, stack depth<=1, name<=2, all 128 configs", [], cost=3),
+    H("s4_end_d2_11_n4", STEP + "end tag <=4 bytes; stack (a)(b): depth 2, lengths 1,1; " + SHAPE, ["End", "IllFormedError"], cost=5),
+    H("s4_end_d2_21_n4", STEP + "end tag <=4 bytes; depth 2, lengths 2,1; " + SHAPE, ["End", "IllFormedError"], cost=5),
+    H("s4_end_d2_12_n4", STEP + "end tag <=4 bytes; depth 2, lengths 1,2; " + SHAPE, ["End", "IllFormedError"], cost=5),
+    H("s4_end_d1_2_n4", STEP + "end tag <=4 bytes; depth 1, length 2; " + SHAPE, ["End", "IllFormedError"], cost=5),
+    H("s4_end_d0_n4", STEP + "end tag <=4 bytes; nothing open; " + SHAPE, ["End", "IllFormedError"], cost=5),
+    H("s4_tag_d2_12_n3", STEP + "start/empty tag <=3 bytes; depth 2, lengths 1,2; " + SHAPE, ["Start"], cost=5),
+    H("s4_tag_d1_1_n3", STEP + "start/empty tag <=3 bytes; depth 1, length 1; " + SHAPE, ["Start"], cost=5),
+    H("s4_empty_d2_12", STEP + "InsideEmpty; depth 2, lengths 1,2; " + SHAPE, ["End"], cost=2),
+    H("s4_empty_d1_2", STEP + "InsideEmpty; depth 1, length 2; " + SHAPE, ["End"], cost=2),
+]
+C08_Q = [
+    H("s8_tag_n4", STEP + "C08 settings, start/empty tag <=4 bytes", ["Start", "Empty"], cost=3),
+    H("s8_end_n4", STEP + "C08 settings, end tag <=4 bytes", ["End"], cost=3),
+    H("s8_pi_n4", STEP + "C08 settings, PI <=4 bytes", ["PI"], cost=3),
+    H("s8_decl_n3", STEP + "C08 settings, '?xml'+<=3 bytes", ["Decl"], cost=3),
+    H("s8_comment_n4", STEP + "C08 settings, '!--'+<=4 bytes", ["Comment"], cost=5),
+    H("s8_text_n4", STEP + "C08 settings, InsideText <=4 bytes", ["Text", "Eof"], cost=5),
+    H("s8_init_n4", STEP + "C08 settings, Init <=4 bytes", ["Text"], cost=5),
+    H("s8_initbom_n3", STEP + "C08 settings, Init, BOM + <=3 bytes", ["Text", "Eof"], cost=6),
+]
+DIFF = "same bytes, same reader state: neutral settings vs solver-chosen settings (5 switches), both the real slice reader; "
+C16_Q = [
+    H("k_name_len_n8", "trim_xml_start/trim_xml_end kernels, <=8 bytes", []),
+    H("r16_transform_n6", "reference side: ref_step(settings) is the documented transformation of ref_step(neutral) for every input <=6 bytes, 5 switches, 3 states (pure reference code)",
+      ["dropped text followed by markup"], cost=3),
+    H("e_comment_n10", "emit_bang(Comment) on every scanner output <=10 bytes (check_comments)", ["DoubleHyphen"], cost=2),
+    H("s1_text_n4", STEP + "InsideText, <=4 bytes (trimming)", ["Text", "Eof"], cost=5),
+    H("s16_text_finding_n4", STEP + "InsideText <=4 bytes, ONLY whitespace-only text directly before markup with trim_text_end && !trim_text_start (the region of the known finding)",
+      [], cost=5, expect="finding", role="c16-empty-text-twin"),
+    H("s1_init_n4", STEP + "Init, <=4 bytes (trimming)", ["Text"], cost=5),
+    H("s1_tag_n4", STEP + "start/empty tag <=4 bytes (expansion)", ["Start", "Empty"], cost=3),
+    H("s1_empty_n2", STEP + "InsideEmpty: the End of an expanded empty element", ["End"]),
+    H("s1_end_n4", STEP + "end tag <=4 bytes (name trimming)", ["End"], cost=4),
+    H("s1_comment_n4", STEP + "'!--'+<=4 bytes (comment checking)", ["Comment", "IllFormedError"], cost=5),
+]
+C16_T = [
+    H("d16_tag_n3", DIFF + "start/empty tag <=3 bytes; expand_empty_elements symbolic (both runs real, no reference)", ["empty element expanded"], cost=9, timeout_thorough=3600),
+    H("d16_end_n3", DIFF + "end tag <=3 bytes; trim_markup_names_in_closing_tags symbolic", ["end name actually trimmed"], cost=9, timeout_thorough=3600),
+    H("d16_comment_n3", DIFF + "'!--'+<=3 bytes; check_comments symbolic", ["double hyphen reported"], cost=9, timeout_thorough=3600),
+    H("d16_text_n3", DIFF + "InsideText <=3 bytes; trim switches symbolic (3 real runs)", ["text actually trimmed"], cost=9, timeout_thorough=3600),
+]
+BUF = "one Reader<BufRead>::read_event_into() over a source delivering the rest in 2 pieces (cut symbolic) vs the reference step (== slice reader by the C01 obligations), same state; "
+C02_Q = [
+    H("k_elem_split_n8", "ElementParser::feed split at every cut, <=8 bytes, 3 start states", ["end found in second piece"]),
+    H("k_pi_split_n8", "PiParser::feed split at every cut, <=8 bytes", ["cut between ? and >"]),
+    H("k_bang_split_n8", "BangType::parse with buffer/chunk split at every cut, <=8 bytes, 3 kinds",
+      ["comment terminator split as --|>", "comment terminator split as -|->", "cdata terminator split as ]|]>", "doctype end in second piece"], cost=3),
+    H("b2_tag_n4", BUF + "start/empty tag <=4 bytes", ["event assembled from two pieces"], cost=5),
+    H("b2_end_n4", BUF + "end tag <=4 bytes", [], cost=5),
+    H("b2_pi_n4", BUF + "PI <=4 bytes", [], cost=5),
+    H("b2_bang_n4", BUF + "'!' <=4 bytes", [], cost=5),
+    H("b2_comment_n4", BUF + "'!--'+<=4 bytes", ["event assembled from two pieces"], cost=7),
+    H("b2_text_n4", BUF + "InsideText <=4 bytes", [], cost=6),
+    H("b2_init_n4", BUF + "Init <=4 bytes, first piece >= 4 bytes or everything", [], cost=6),
+    H("b2_initbom_n3", BUF + "Init, BOM + <=3 bytes, first piece >= 4", [], cost=7),
+]
+C02_T = [
+    H("k_elem_split_n12", "ElementParser::feed split at every cut, <=12 bytes", []),
+    H("k_pi_split_n12", "PiParser::feed split at every cut, <=12 bytes", []),
+    H("k_bang_split_n12", "BangType::parse split at every cut, <=12 bytes", [], cost=5),
+    H("b2_cdata_n4", BUF + "'![CDATA['+<=4 bytes", [], cost=9, timeout_thorough=3600),
+    H("b2_doctype_n4", BUF + "'!DOCTYPE'+<=4 bytes", [], cost=9, timeout_thorough=3600),
+]
+FLT = "buffered step over a source with a solver-chosen fault (none / Interrupted / other error) at each of its first 3 refills, 2 pieces; "
+C18_Q = [
+    H("b18_tag_n3", FLT + "start/empty tag <=3 bytes", ["interrupted and completed", "io error delivered"], cost=6),
+    H("b18_bang_n3", FLT + "'!' <=3 bytes", ["io error delivered"], cost=6),
+    H("b18_comment_n3", FLT + "'!--'+<=3 bytes", ["interrupted and completed", "io error delivered"], cost=7),
+    H("b18_text_n3", FLT + "InsideText <=3 bytes", ["interrupted and completed", "io error delivered"], cost=6),
+    H("b18_init_n3", FLT + "Init <=3 bytes", ["io error delivered"], cost=6),
+]
+
+C10_Q = [
+    H("x10_parse_number", "parse_number on 'x'? + <=2 leading zeros + <=8 arbitrary ASCII chars: every code point 0..0x10FFFF and beyond, both radices, case variants, signs, non-digits",
+      ["supplementary plane character", "surrogate rejected", "out of range rejected"], cost=4),
+    H("x10_unescape_n3", "unescape on every ASCII string of <=3 bytes", ["malformed reference"], cost=5),
+    H("x10_unesc_s2", "unescape on '&??;' with 2 symbolic ASCII bytes (lt, gt, unknown names, nested & and ;)", ["reference expanded", "malformed reference"], cost=5),
+    H("x10_unesc_num", "unescape on '&#??;' with 2 symbolic ASCII bytes", ["reference expanded", "malformed reference"], cost=5),
+    H("x10_esc_full_1", "escape on every 1-byte ASCII string: table image, forbidden characters absent, borrowed iff unchanged", ["something escaped"], cost=6),
+    H("x10_esc_part_1", "partial_escape on every 1-byte ASCII string", ["something escaped"], cost=6),
+    H("x10_esc_min_1", "minimal_escape on every 1-byte ASCII string", ["something escaped"], cost=6),
+    H("x10_inv_lt", "inverse by composition: unescape('&lt;') (concrete execution)", []),
+    H("x10_inv_gt", "unescape('&gt;') (concrete execution)", []),
+    H("x10_inv_amp", "unescape('&amp;') (concrete execution)", []),
+    H("x10_inv_apos", "unescape('&apos;') (concrete execution)", []),
+    H("x10_inv_quot", "unescape('&quot;') (concrete execution)", []),
+]
+C10_T = [
+    H("x10_unescape_n4", "unescape on every ASCII string of <=4 bytes", ["reference expanded"], cost=9, timeout_thorough=3600),
+    H("x10_unesc_s3", "unescape on '&???;' (amp and look-alikes)", ["reference expanded"], cost=7),
+    H("x10_unesc_s4", "unescape on '&????;' (apos, quot and look-alikes)", ["reference expanded"], cost=8),
+    H("x10_unesc_hex", "unescape on '&#x??;'", ["reference expanded"], cost=7),
+    H("x10_unesc_two", "unescape on '?&lt;?&' (text around a reference, unterminated second one)", [], cost=7),
+    H("x10_esc_full_mid", "escape on '<' c '>' with c symbolic (pos/new_pos bookkeeping between replacements)", ["something escaped"], cost=8),
+    H("x10_esc_full_end", "escape on 'a&' c with c symbolic", ["something escaped"], cost=8),
+    H("x10_esc_min_mid", "minimal_escape on '>' c '<' with c symbolic", ["something escaped"], cost=8),
+    H("x10_inv_mixed", "unescape('a&lt;b&amp;&gt;c') (concrete execution: last_end bookkeeping)", []),
+]
+ATTR = "one Attributes::next() from an arbitrary iterator state (hook verif_with_state; <=2 recorded keys), XML/HTML mode and duplicate checking symbolic, ASCII tag content "
+C11_Q = [
+    H("a11_next_n5", ATTR + "<=5 bytes, state Next(o)", ["attribute with value", "duplicate reported"], cost=6),
+    H("a11_skipvalue_n5", ATTR + "<=5 bytes, state SkipValue(o)", ["attribute after a skipped unquoted value"], cost=6),
+    H("a11_skipeq_n8", ATTR + "<=8 bytes, state SkipEqValue(o)", ["attribute after a skipped duplicate"], cost=8),
+    H("a11_done_n3", ATTR + "<=3 bytes, state Done", [], cost=1),
+]
+C11_T = [
+    H("a11_next_n7", ATTR + "<=7 bytes, state Next(o)", ["attribute with value", "duplicate reported"], cost=9, timeout_thorough=3600),
+]
+
+NSK = "real NamespaceResolver built from parts (hook VerifResolver): <=3 user bindings of a concrete shape (prefix/namespace lengths 0/1), contents, levels and nesting symbolic; "
+C05_Q = [
+    H("n5_resolve_s0", NSK + "resolve element/attribute names l, q:l, xml:l, xmlns:l; shape default,p,p-unbound", ["prefix bound through 3 bindings"], cost=3),
+    H("n5_resolve_s1", NSK + "resolve; shape p,default,default-removed", ["default removed"], cost=3),
+    H("n5_resolve_s2", NSK + "resolve; shape p,q,r (shadowing)", ["prefix bound through 3 bindings"], cost=3),
+    H("n5_popiter_s0", NSK + "prefixes() listing + pop; shape default,p,p-unbound", ["pop drops some and keeps some"], cost=3),
+    H("n5_popiter_s1", NSK + "prefixes() listing + pop; shape p,default,default-removed", ["pop drops some and keeps some"], cost=3),
+    H("n5_popiter_s2", NSK + "prefixes() listing + pop; shape p,q,r", ["pop drops some and keeps some"], cost=3),
+]
+C05_T = [
+    H("n5_resolve_s3", NSK + "resolve; shape default,default,p", [], cost=3),
+    H("n5_popiter_s3", NSK + "listing + pop; shape default,default,p", [], cost=3),
+]
+
+C19_Q = [
+    H("w19_start", "one Writer::write_event(start) from an arbitrary indentation state (should_line_break, depth<=200, indent char, width 0..9) vs the plain writer, through a recording sink", [], cost=1),
+    H("w19_end", "one Writer::write_event(end) from an arbitrary indentation state (should_line_break, depth<=200, indent char, width 0..9) vs the plain writer, through a recording sink", [], cost=1),
+    H("w19_empty", "one Writer::write_event(empty) from an arbitrary indentation state (should_line_break, depth<=200, indent char, width 0..9) vs the plain writer, through a recording sink", [], cost=1),
+    H("w19_text", "one Writer::write_event(text) from an arbitrary indentation state (should_line_break, depth<=200, indent char, width 0..9) vs the plain writer, through a recording sink", [], cost=1),
+    H("w19_comment", "one Writer::write_event(comment) from an arbitrary indentation state (should_line_break, depth<=200, indent char, width 0..9) vs the plain writer, through a recording sink", [], cost=1),
+    H("w19_cdata", "one Writer::write_event(cdata) from an arbitrary indentation state (should_line_break, depth<=200, indent char, width 0..9) vs the plain writer, through a recording sink", [], cost=1),
+    H("w19_decl", "one Writer::write_event(decl) from an arbitrary indentation state (should_line_break, depth<=200, indent char, width 0..9) vs the plain writer, through a recording sink", [], cost=1),
+    H("w19_pi", "one Writer::write_event(pi) from an arbitrary indentation state (should_line_break, depth<=200, indent char, width 0..9) vs the plain writer, through a recording sink", [], cost=1),
+    H("w19_doctype", "one Writer::write_event(doctype) from an arbitrary indentation state (should_line_break, depth<=200, indent char, width 0..9) vs the plain writer, through a recording sink", [], cost=1),
+    H("w19_eof", "one Writer::write_event(eof) from an arbitrary indentation state (should_line_break, depth<=200, indent char, width 0..9) vs the plain writer, through a recording sink", [], cost=1),
+    H("w19_start_grow", "same, Start, indent buffer of 128 and depth 110..128: growth past the preallocation", ["indent longer than the preallocated buffer"], cost=2),
+    H("w19_end_grow", "same, End", [], cost=2),
+    H("w19_comment_grow", "same, Comment", [], cost=2),
+]
+C08_W = [
+    H("w8_start_n3", "plain Writer::write_event(start) with a symbolic payload <=3 ASCII bytes into a Vec: exactly open+payload+close", [], cost=2),
+    H("w8_end_n3", "plain Writer::write_event(end) with a symbolic payload <=3 ASCII bytes into a Vec: exactly open+payload+close", [], cost=2),
+    H("w8_empty_n3", "plain Writer::write_event(empty) with a symbolic payload <=3 ASCII bytes into a Vec: exactly open+payload+close", [], cost=2),
+    H("w8_text_n3", "plain Writer::write_event(text) with a symbolic payload <=3 ASCII bytes into a Vec: exactly open+payload+close", [], cost=2),
+    H("w8_comment_n3", "plain Writer::write_event(comment) with a symbolic payload <=3 ASCII bytes into a Vec: exactly open+payload+close", [], cost=2),
+    H("w8_cdata_n3", "plain Writer::write_event(cdata) with a symbolic payload <=3 ASCII bytes into a Vec: exactly open+payload+close", [], cost=2),
+    H("w8_decl_n3", "plain Writer::write_event(decl) with a symbolic payload <=3 ASCII bytes into a Vec: exactly open+payload+close", [], cost=2),
+    H("w8_pi_n3", "plain Writer::write_event(pi) with a symbolic payload <=3 ASCII bytes into a Vec: exactly open+payload+close", [], cost=2),
+    H("w8_doctype_n3", "plain Writer::write_event(doctype) with a symbolic payload <=3 ASCII bytes into a Vec: exactly open+payload+close", [], cost=2),
+    H("w8_eof_n3", "plain Writer::write_event(eof) with a symbolic payload <=3 ASCII bytes into a Vec: exactly open+payload+close", [], cost=2),
 ]
 
 PLAN = {
  "defaults": {"crate": "core", "timeout": 900},
  "properties": {
   "C01": {
-    "quick": SCAN_Q + STEP1_Q,
-    "thorough": SCAN_T,
+    "quick": SCAN_Q + EMIT_Q + STEP1_Q,
+    "thorough": SCAN_T + STEP1_T,
     "evidence": {
       "functions": ["ElementParser::feed", "PiParser::feed", "BangType::parse", "utils::name_len", "utils::is_whitespace",
                     "Reader::read_event_impl (read_event_impl!/read_until_close!)", "<&[u8] as XmlSource>::{remove_utf8_bom,read_text,read_with,read_bang_element,skip_whitespace,peek_one}",
@@ -54,5 +216,15 @@ PLAN = {
                       "the documented-but-unimplemented empty-Text case (trim_text_end && !trim_text_start) is excluded here and decided under C16"],
     },
   },
+  "C03": {"quick": EMIT_Q + STEP1_Q, "thorough": STEP1_T, "owns_panics": True, "evidence": {}},
+  "C04": {"quick": C04_Q, "thorough": [], "labels": ["C04", "C16"], "evidence": {}},
+  "C08": {"quick": C08_Q + C08_W, "thorough": [], "evidence": {}},
+  "C19": {"quick": C19_Q, "thorough": [], "evidence": {}},
+  "C16": {"quick": C16_Q, "thorough": C16_T, "labels": ["C16", "C01"], "evidence": {}},
+  "C02": {"quick": C02_Q, "thorough": C02_T, "labels": ["C02", "C01"], "evidence": {}},
+  "C18": {"quick": C18_Q, "thorough": [], "labels": ["C18", "C02", "C01"], "evidence": {}},
+  "C05": {"quick": C05_Q, "thorough": C05_T, "evidence": {}},
+  "C10": {"quick": C10_Q, "thorough": C10_T, "evidence": {}},
+  "C11": {"quick": C11_Q, "thorough": C11_T, "evidence": {}},
  },
 }
